@@ -1135,9 +1135,9 @@ func ruleConvOrder(c *Ctx) {
 	name := fname(fn)
 	// the steps may sit in a helper shared by the chord and the rest clause: look at the whole region of Convert
 	var mods, convs, scales []rcall
-	region := c.regionCalls(fn, func(f *ssa.Function) bool { return !f.Object().Exported() && f.Name() != "changeScale" })
+	region := c.regionCalls(fn, func(f *ssa.Function) bool { return !isExportedFn(f) && f.Name() != "changeScale" })
 	tr := &tracer{c: c, stop: func(f *ssa.Function) bool {
-		return f.Name() == "changeScale" || (f.Object() != nil && f.Object().Exported())
+		return f.Name() == "changeScale" || (isExportedFn(f))
 	}}
 	for _, rc := range region {
 		cc := rc.call.Common()
